@@ -56,7 +56,7 @@ class C15(Scenario):
     prop = "C15"
     level = "fault_enumeration"
     profiles = ["wire-corruption"]
-    budgets = {"quick": 1200, "thorough": 20000}
+    budgets = {"quick": 4000, "thorough": 60000}
     wall_caps = {"quick": 110, "thorough": 1500}
     block = 16
     rule = ("one run = one base document (toJson of a seeded tree after seeded fills and an optional merge, sent through "
